@@ -92,4 +92,6 @@ REVIEWED = {
         'j enumerates the helper shares: j < num_aggregators - 1 <= 253, so j fits u8 and j + 1 <= 254',
     'vdaf::prio3::Prio3::<T, P, SEED_SIZE>::shard_with_random|overflow:Add|Result::<T, E>::unwrap(<impl TryFrom<usize> for u8>::try_from((<Enumerate<I> as Iterator>::next(φiter) as Some).0.0))|1':
         'j enumerates the helper shares: j < num_aggregators - 1 <= 253, so j fits u8 and j + 1 <= 254',
+    "flp::types::dp::<impl flp::types::l1boundsum::L1BoundSum<F, S>>::add_noise|call:unwrap|<impl TryFrom<BigInt> for BigUint>::try_from((conv(self.max_value) Mul 2))":
+        "BigInt::from(an unsigned integer) * 2 is non-negative, so the conversion to BigUint cannot fail",
 }
